@@ -374,10 +374,11 @@ Definition c02_holds (l : list (sop * (out * obs))) : bool :=
 (** Which message the man in the middle touches and how. *)
 Inductive mitm :=
 | MNone
-| MReqAltered       (* request changed but well-formed *)
+| MReqAltered       (* request changed but still accepted by the responder *)
 | MReqBroken        (* request no longer parses / passcode id / random length *)
-| MRespAltered      (* response changed: the initiator either refuses it or hashes other bytes *)
+| MRespAltered      (* response changed: the initiator refuses it or hashes other bytes *)
 | MP1Invalid        (* pA no longer a valid point or Pake1 no longer parses *)
+| MP1Swapped        (* pA replaced by another valid point *)
 | MP2Altered        (* pB or cB changed: the initiator's cB check fails *)
 | MP3Altered        (* cA changed, still 32 bytes *)
 | MP3Broken.        (* Pake3 no longer parses *)
@@ -391,14 +392,15 @@ Definition apply_wop (s : st) (w : wop) : st :=
   | WNone => s
   | WClose => fst (step s Close)
   | WExpire => fst (step s (Advance 1000000))
-  | WReopen pw => fst (step (fst (step s Close)) (Open true (mkVf pw 77 32 BASIC_ITERS) 900))
+  | WReopen pw => fst (step (fst (step s Close)) (Open true (mkVf pw 78 32 BASIC_ITERS) 900))
   end.
 
 (** [PaseInitiator::perform] against the model responder.  Result: the final
     state and whether the initiator established its session. *)
 Definition e2e_run (s : st) (pw_init : N) (mi : mitm) (at_msg : N) (w : wop) : st * bool :=
   let e := 1 in
-  let wat k s := if at_msg =? k then apply_wop s w else s in
+  let wat (k : N) (x : st) := if at_msg =? k then apply_wop x w else x in
+  let give_up (x : st) := (fst (step x (Msg e MStatus)), false) in
   (* PBKDFParamRequest *)
   let s := wat 0 s in
   let bytes := 1000 in
@@ -409,27 +411,30 @@ Definition e2e_run (s : st) (pw_init : N) (mi : mitm) (at_msg : N) (w : wop) : s
   | OResp n (Some ps) =>
       match mi with
       | MRespAltered =>
-          (* refused or hashed differently: either way the initiator ends with a StatusReport or a wrong cA;
-             the device counts one failure.  Modelled as the StatusReport. *)
-          (fst (step s (Msg e MStatus)), false)
+          (* refused, or hashed differently and then cB does not verify: either way the initiator
+             ends with a StatusReport; the device counts one failure. *)
+          give_up s
       | _ =>
       (* Pake1 *)
       let s := wat 1 s in
       let v := mkVf pw_init (vf_salt ps) (vf_saltlen ps) (vf_iters ps) in
       let own := PtValid 101 in
-      let m1 := match mi with MP1Invalid => MP1 (P1Point PtOffCurve) | _ => MP1 (P1Point own) end in
+      let m1 := match mi with
+                | MP1Invalid => MP1 (P1Point PtOffCurve)
+                | MP1Swapped => MP1 (P1Point (PtValid 202))
+                | _ => MP1 (P1Point own)
+                end in
       let '(s, r1) := step s (Msg e m1) in
       match r1 with
       | OPake2 nb =>
           let tr_i := mkTr bytes n own nb in
-          (* the initiator checks cB: it is the responder's value for its verifier and transcript *)
+          (* the initiator checks cB: the responder's value for its verifier and transcript *)
           let cb_ok :=
             match hs_get e (hs s) with
             | Some (AwaitP3 vf _ tr _) => vf_eqb vf v && tr_eqb tr tr_i
             | _ => false
             end in
-          if negb cb_ok || match mi with MP2Altered => true | _ => false end then
-            (fst (step s (Msg e MStatus)), false)
+          if negb cb_ok || match mi with MP2Altered => true | _ => false end then give_up s
           else
             (* Pake3 *)
             let s := wat 2 s in
@@ -444,8 +449,10 @@ Definition e2e_run (s : st) (pw_init : N) (mi : mitm) (at_msg : N) (w : wop) : s
             | OStatus _ => (fst (step s (Msg e MAck)), false)
             | _ => (s, false)      (* no answer: the initiator times out *)
             end
+      | OStatus _ => (fst (step s (Msg e MAck)), false)
       | _ => (s, false)
       end
       end
+  | OResp n None => give_up s
   | _ => (s, false)
   end.
